@@ -46,6 +46,12 @@ def main(argv: List[str]) -> int:
                 items[tid] = {'tid': tid, 'doc': doc, 'allow': tid % 3 == 0, 'want': 'model', 'fseed': fseed, 'pinned': pinned,
                               'seed': pid, 'gen': 'GenProduct'}
     rep.notes['product_documents'] = nprod
+    # a comment is no declaration, whatever it contains or ends in: each document once more with one comment line somewhere
+    for seed, doc in ds:
+        tid += 1
+        text = ['// path C:\\temp\\', '// ends in a backslash \\', '/* block **/', '// \\'][seed % 4]
+        items[tid] = {'tid': tid, 'doc': doc, 'allow': False, 'want': 'inert', 'fseed': seed, 'pinned': {}, 'seed': seed, 'gen': 'RandDoc',
+                      'noise': [['own', (seed * 7919) % 997, text]], 'variant': 'one comment'}
     rep.notes['products_complete'] = complete
     res = docs.run_items(list(items.values()), rep, 'C01')
     doccheck.judge('C01', rep, res, items,
